@@ -1,5 +1,37 @@
 import BigtreeModel.Proto
-/-! Driver handler for property C15: one case (token list) in, one canonical line out. -/
+import BigtreeModel.Helper
+/-! Driver handler for property C15 (get_tree_diff).
+
+`sep=<x> only=<0|1> attrs=<x,x,…|-> T <tree> U <tree>`
+→ `none` | `rej` | `ok <node>;<node>;…` where `<node>` = `<xcomp>/<xcomp>/…@<attrs>`, sorted
+(the result is compared as a set of component tuples with attributes). -/
 namespace Drv.C15
-def handle (_toks : List String) : String := "unimplemented"
+open Proto Helper
+
+def splitAtTok (toks : List String) (t : String) : List String × List String :=
+  (toks.takeWhile (· ≠ t), (toks.dropWhile (· ≠ t)).drop 1)
+
+def parseStrs (s : String) : Option (List Str) :=
+  if s == "-" then some [] else (s.splitOn ",").mapM unhex
+
+def showNode (v : Visit) : String :=
+  "/".intercalate (v.names.map hex) ++ "@" ++ showAttrs v.sub.attrs
+
+def showSet (t : Tree) : String :=
+  ";".intercalate (((walk [] [] t).map showNode).mergeSort fun a b => decide (a ≤ b))
+
+def handle (toks : List String) : String :=
+  let r : Option String := do
+    let sep ← unhex (← kv toks "sep")
+    let only ← match (← kv toks "only") with | "0" => some false | "1" => some true | _ => none
+    let attrs ← parseStrs (← kv toks "attrs")
+    let (_, rest) := splitAtTok toks "T"
+    let (t1, rest1) ← parseTree rest
+    let (_, rest2) := splitAtTok rest1 "U"
+    let (t2, _) ← parseTree rest2
+    match treeDiff sep t1 t2 only attrs with
+    | .ok none => pure "none"
+    | .ok (some t) => pure ("ok " ++ showSet t)
+    | .error _ => pure "rej"
+  r.getD "bad-op"
 end Drv.C15
